@@ -158,11 +158,11 @@ def run(chk: core.Check):
     emit_cfg = "SPECIFICATION Spec\nCONSTRAINT EmitState\n"
     plans = [((10, 11), 4, {"face", "adv"}), ((7, 8), 2, {"diff", "curl"}), ((9, 9, 10), 4, {"adv"}),
              ((6, 6, 7), 2, {"diff", "curl"}), ((8, 8, 9), 3, {"filter"})]
-    if not quick:
-        plans.append(((5, 5, 5), 4, {"face"}))
+    plans.append(((5, 5, 5), 4, {"face"}))
     variants = [("exact", np.float64), ("compile", np.float64)] + ([] if quick else [("compile", np.float32)])
     for shape, m, kinds in plans:
-        res = mc(chk, f"emit {shape} {sorted(kinds)}", shape, m, kinds, cfg=emit_cfg, emit=(every, seed % every), workers=1)
+        ev = every * 3 if (quick and len(shape) == 3 and kinds == {"face"}) else every
+        res = mc(chk, f"emit {shape} {sorted(kinds)}", shape, m, kinds, cfg=emit_cfg, emit=(ev, seed % ev), workers=1)
         seen = set()
         for e in res.emits:
             key = tlc.canon(e["cs"])
